@@ -1405,8 +1405,7 @@ def evaluate__from_date_functions(self: XPathFunction, context: ta.ContextType =
     elif item.tzinfo is None:
         return []
 
-    dt_ = datetime.datetime(year=max(item.year, 0), month=item.month, day=item.day)
-    offset = item.tzinfo.utcoffset(dt_)
+    offset = item.tzinfo.utcoffset(None)
     if offset is None:
         return []
 
